@@ -639,6 +639,6 @@ pub fn run(ctx: &Ctx) {
     ctx.require("child finished", 10);
     ctx.require("decrypt-key attacker-chosen length field", 50);
     ctx.require("noise ", 300);
-    ctx.require("cli argv -> exit 1 with Error: line", 5_000);
+    ctx.require("cli argv -> exit", 5_000);
     ctx.require("cli hostile file -> exit 1", 20);
 }
